@@ -17,6 +17,8 @@ func main() {
 	switch *prop {
 	case "C05":
 		vlib.Main("C05", "fault_enumeration", checkC05)
+	case "C07":
+		vlib.Main("C07", "fault_enumeration", checkC07)
 	case "C04":
 		vlib.Main("C04", "exploration", checkC04)
 	default:
